@@ -135,6 +135,21 @@ def audit_theorems(prop, theorems):
     return res, ""
 
 
+def coqchk(prop, timeout=1800):
+    """independent re-check of the property's compiled closure; returns (ok, axioms text)"""
+    try:
+        rc, out, err = sh(["coqchk", "-o", "-silent", "-Q", ".", "FP", "FP.Properties.%s" % prop, "FP.Properties.Pin%s" % prop],
+                          cwd=COQ, timeout=timeout)
+    except subprocess.TimeoutExpired:
+        return False, "coqchk timed out"
+    txt = out + err
+    m = re.search(r"\* Axioms:(.*?)\n\s*\n", txt, flags=re.S)
+    axioms = m.group(1).strip() if m else "?"
+    clean = (rc == 0 and axioms == "<none>" and "type-in-type: <none>" in txt
+             and "unsafe (co)fixpoints: <none>" in txt and "positivity is assumed: <none>" in txt)
+    return clean, ("axioms: " + axioms) if rc == 0 else txt[-1500:]
+
+
 # ---------------------------------------------------------------- running the two sides
 
 def hx(s):
